@@ -26,6 +26,7 @@ var DefaultAllow = []string{
 	"unicode/utf8", "encoding/base64", "encoding/binary", "sort", "slices", "math/bits", "math",
 	"sync", "sync/atomic", "time", "context", "internal/bytealg", "internal/itoa",
 	"github.com/emersion/go-sasl", "internal/stringslite", "unicode", "cmp", "internal/byteorder",
+	"net/url", "encoding/hex", "path", "maps", "unicode/utf16", "container/list",
 }
 
 // AllowFiles: source files of packages that are otherwise reached only through
